@@ -947,17 +947,18 @@ theorem T_C08_tie_theta_guard (θ : Rat) :
   simp [chain, cmpOp, thetaGuard]
 
 /-- `arc_length_3point`: the denominator guard `norm(denom) < 1e-18` and the side test `dot(cross(r1,r2), cross(r1,r3)) < 0` are
-    the comparisons of the source (operators and operands), the literals are `1e-18, 0.5, 0.5, -1.0, 1.0, 0, 2` in this order
+    the comparisons of the source (operators and operands), the bound of the guard is the double that `1e-18` denotes (`arc3Eps`, exactly), the literals are `1e-18, 0.5, 0.5, -1.0, 1.0, 0, 2` in this order
     (guard, `fact`, half of `vect_a`, the two clip bounds, the side test, `2π − angle`), and `np.clip` has the bounds the model uses -/
 theorem T_C08_tie_arc3 (x : Rat) :
     CBV.Gen.c08Arc3Compares.map (fun c => (c.1, c.2.2)) =
       [("norm(v8)", ["1e-18"]), ("np.dot(np.cross(v11, v12), np.cross(v11, v13))", ["0"])] ∧
     CBV.Gen.c08Arc3Numbers = [(1, 1000000000000000000), (1, 2), (1, 2), (-1, 1), (1, 1), (0, 1), (2, 1)] ∧
     CBV.Gen.c08Arc3Clip = [["v11.dot(v13) / (v14 * v15)", "-1.0", "1.0"]] ∧
-    chain (opsAt CBV.Gen.c08Arc3Compares 0) [absR x, mkRat 1 (10 ^ 18)] = some (decide (absR x < mkRat 1 (10 ^ 18))) ∧
+    arc3Eps = mkRat CBV.Gen.c08Arc3GuardDouble.1 CBV.Gen.c08Arc3GuardDouble.2 ∧
+    chain (opsAt CBV.Gen.c08Arc3Compares 0) [absR x, arc3Eps] = some (decide (absR x < arc3Eps)) ∧
     chain (opsAt CBV.Gen.c08Arc3Compares 1) [x, 0] = some (decide (x < 0)) ∧
     CBV.Gen.c08LengthCall = [["self.vertex_1.position", "self.third_point.position", "self.vertex_2.position"]] := by
-  refine ⟨by decide, by decide, by decide, ?_, ?_, by decide⟩
+  refine ⟨by decide, by decide, by decide, by decide +kernel, ?_, ?_, by decide⟩
   · have h : opsAt CBV.Gen.c08Arc3Compares 0 = ["Lt"] := by decide
     rw [h]; simp [chain, cmpOp]
   · have h : opsAt CBV.Gen.c08Arc3Compares 1 = ["Lt"] := by decide
